@@ -22,6 +22,7 @@ import functools
 import inspect
 import random
 import signal
+import time
 import types
 import typing as T
 import warnings
@@ -465,13 +466,19 @@ def children(spec) -> list:
 
 
 def shape(spec, depth=2) -> str:
+    """Coarse identity of a (shrunk) failing object: container kinds, scalars collapsed to their number of distinct types."""
     k = spec[0]
-    if k == 'leaf':
-        return spec[1]
     cs = children(spec)
-    if not cs or depth == 0:
-        return k + ('[]' if k in SEQ_KINDS or k in SET_KINDS or k in MAP_KINDS or k in VIEW_KINDS else '')
-    return k + '[' + ','.join(sorted({shape(c, depth - 1) for c in cs})) + ']'
+    is_cont = k in SEQ_KINDS or k in SET_KINDS or k in MAP_KINDS or k in VIEW_KINDS
+    if not is_cont:
+        return spec[1] if k == 'leaf' else 'range' if k == 'range' else 'back' if k == 'back' else 'scalar'
+    if not cs:
+        return k + '[]'
+    if depth == 0:
+        return k + '[…]'
+    inner = sorted({shape(c, depth - 1) for c in cs if shape(c, depth - 1) != 'scalar'})
+    nsc = len({c[0] for c in cs if c[0] in ('int', 'bool', 'str', 'float', 'none')})
+    return k + '[' + ','.join(([f'{nsc}-scalar-types'] if nsc else []) + inner) + ']'
 
 
 class SpecGen:
@@ -964,23 +971,34 @@ def evaluate(spec, strat='on'):
     return obj, res, acc, failed
 
 
+def descend(spec):
+    """Smallest sub-object that still fails on its own (On inference); sub-objects holding a
+    back-reference to an enclosing container cannot stand alone and are not entered."""
+    cur = spec
+    while True:
+        for c in children(cur):
+            if has_back(c):
+                continue
+            try:
+                if evaluate(c)[3]:
+                    cur = c
+                    break
+            except Exception:
+                pass
+        else:
+            break
+    return cur
+
+
 def shrink(spec):
     """Smallest sub-object / smallest item list that still fails on the real code (On inference)."""
     cur = spec
     for _ in range(200):
         progressed = False
-        if not has_back(cur):
-            for c in children(cur):
-                if c[0] == 'back':
-                    continue
-                try:
-                    if evaluate(c)[3]:
-                        cur, progressed = c, True
-                        break
-                except Exception:
-                    pass
-            if progressed:
-                continue
+        d = descend(cur)
+        if d is not cur:
+            cur = d
+            continue
         cs = cur[1] if isinstance(cur[1], list) and (cur[0] in SEQ_KINDS or cur[0] in SET_KINDS or cur[0] in MAP_KINDS or cur[0] in VIEW_KINDS) else None
         if cs:
             for i in range(len(cs)):
@@ -995,17 +1013,32 @@ def shrink(spec):
                     pass
             if progressed:
                 continue
+            pair = cur[0] in MAP_KINDS or cur[0] in VIEW_KINDS
             for i, c in enumerate(cs):                      # replace an item by a scalar
-                pair = cur[0] in MAP_KINDS or cur[0] in VIEW_KINDS
                 tgt = c[1] if pair else c
-                if tgt[0] in ('int', 'back') or (has_back(tgt)):
+                if tgt[0] == 'back' or has_back(tgt):
                     continue
-                new = [c[0], ['int', 1]] if pair else ['int', 1]
-                cand = [cur[0], cs[:i] + [new] + cs[i + 1:]]
+                for sc in (['int', 1], ['str', 'a']):
+                    if tgt == sc or (tgt[0] in ('int', 'str') and sc[0] != 'int'):
+                        continue
+                    new = [c[0], sc] if pair else sc
+                    cand = [cur[0], cs[:i] + [new] + cs[i + 1:]]
+                    try:
+                        if evaluate(cand)[3]:
+                            cur, progressed = cand, True
+                            break
+                    except Exception:
+                        pass
+                if progressed:
+                    break
+            if progressed:
+                continue
+            simple = 'list' if cur[0] in SEQ_KINDS else 'set' if cur[0] in SET_KINDS else 'dict' if cur[0] in MAP_KINDS else None
+            if simple and simple != cur[0]:                 # is the container kind essential?
+                cand = [simple, cs]
                 try:
                     if evaluate(cand)[3]:
                         cur, progressed = cand, True
-                        break
                 except Exception:
                     pass
         if not progressed:
@@ -1121,7 +1154,40 @@ def explore(ck: Check, n: int, seed: int, depth: int = 3) -> Explore:
                                        'tuple logic only for tuple, World.Wf)', 'driver': wf})
     seen_keys, distinct, kinds = set(), set(), {}
     lucky = 0
+    state = {'shrink_time': 0.0}
+    seen_pre = set()
     on_failed = set()
+    def report(sp, st, o, res, acc, rec, mh):
+        t0 = time.time()
+        pre = descend(sp) if st == 'on' else sp
+        po, pres, pacc, pfailed = evaluate(pre, st)
+        pre_key = classify(pre, po, pres, pacc) if pfailed else repr(sp)
+        if pre_key in seen_pre:
+            state['shrink_time'] += time.time() - t0
+            return
+        seen_pre.add(pre_key)
+        ssp = shrink(pre) if st == 'on' else sp
+        state['shrink_time'] += time.time() - t0
+        so, sres, sacc, sfailed = evaluate(ssp, st)
+        if not sfailed and not (rec and sres[0] == 'ok' and sres[2] == 0):
+            ssp, so, sres, sacc = sp, o, res, acc
+        if has_back(ssp) and sres[0] == 'ok' and sres[2] == 0:
+            key = 'C20:recursive-container:no-warning'
+        else:
+            key = classify(ssp, so, sres, sacc)
+        if key not in seen_keys:
+            seen_keys.add(key)
+            bad = {k: v for k, v in sacc.items() if v is not True}
+            what = (f'infer_hint({so!r:.80}) ' + (
+                f'-> {sres[1]!r:.160}; is_bearable(obj, hint) is not True under (conf/draw) {dict(list(bad.items())[:4])}'
+                if sres[0] == 'ok' and bad else
+                f'-> {sres[1]!r:.160} with {sres[2]} recursion warning(s)' if sres[0] == 'ok' else
+                f'raises {sres[1]}: {sres[2]}' if sres[0] == 'exc' else 'does not terminate (timeout)'))
+            ex.failures.append(Failure(key=key, what=what, replay={
+                'spec': ssp, 'strategy': st if st == 'on' else list(st), 'object': repr(so)[:300],
+                'real_hint': repr(sres[1])[:400] if sres[0] == 'ok' else None, 'real_result': [str(x)[:200] for x in sres[:1] + sres[2:]] if sres[0] != 'ok' else 'ok',
+                'not_accepted_under': bad, 'model_hint_of_unshrunk': show(mh, reg), 'unshrunk_spec': sp}))
+
     outcome = {'accepted': 0, 'rejected': 0, 'infer-raised': 0, 'recursive': 0, 'O1': 0}
     for (sp, st, o, res, acc), m, cr in zip(rows, models, creal):
         ex.evaluations += 1
@@ -1151,27 +1217,8 @@ def explore(ck: Check, n: int, seed: int, depth: int = 3) -> Explore:
             on_failed.add(repr(sp))
         if failed and st != 'on' and repr(sp) in on_failed:
             failed = False              # the same object already failed under the default strategy (reported there, shrunk)
-        if failed and len(seen_keys) < 12:
-            ssp = shrink(sp) if st == 'on' else sp
-            so, sres, sacc, sfailed = evaluate(ssp, st)
-            if not sfailed and not (rec and sres[0] == 'ok' and sres[2] == 0):
-                ssp, so, sres, sacc = sp, o, res, acc
-            if has_back(ssp) and sres[0] == 'ok' and sres[2] == 0:
-                key = 'C20:recursive-container:no-warning'
-            else:
-                key = classify(ssp, so, sres, sacc)
-            if key not in seen_keys:
-                seen_keys.add(key)
-                bad = {k: v for k, v in sacc.items() if v is not True}
-                what = (f'infer_hint({so!r:.80}) ' + (
-                    f'-> {sres[1]!r:.160}; is_bearable(obj, hint) is not True under (conf/draw) {dict(list(bad.items())[:4])}'
-                    if sres[0] == 'ok' and bad else
-                    f'-> {sres[1]!r:.160} with {sres[2]} recursion warning(s)' if sres[0] == 'ok' else
-                    f'raises {sres[1]}: {sres[2]}' if sres[0] == 'exc' else 'does not terminate (timeout)'))
-                ex.failures.append(Failure(key=key, what=what, replay={
-                    'spec': ssp, 'strategy': st if st == 'on' else list(st), 'object': repr(so)[:300],
-                    'real_hint': repr(sres[1])[:400] if sres[0] == 'ok' else None, 'real_result': [str(x)[:200] for x in sres[:1] + sres[2:]] if sres[0] != 'ok' else 'ok',
-                    'not_accepted_under': bad, 'model_hint_of_unshrunk': show(mh, reg), 'unshrunk_spec': sp}))
+        if failed and len(seen_keys) < 14 and state['shrink_time'] < 45:
+            report(sp, st, o, res, acc, rec, mh)
         # ---- correspondence model <-> code
         if res[0] == 'ok':
             ex.traces_validated += 1
@@ -1234,8 +1281,8 @@ def main(ck: Check) -> int:
     quick = ck.tier == 'quick'
     xinfer.extract()
     proof = ck.prove(MODULE, PROP_FILE)
-    ex = explore(ck, n=700 if quick else 9000, seed=ck.seed, depth=3 if quick else 4)
-    ck.decide(proof, ex, deep_search=lambda: explore(ck, n=4000, seed=ck.seed + 101, depth=4))
+    ex = explore(ck, n=1500 if quick else 25000, seed=ck.seed, depth=3 if quick else 4)
+    ck.decide(proof, ex, deep_search=lambda: explore(ck, n=3000, seed=ck.seed + 101, depth=4))
     ck.evidence(proof, ex,
                 level_note='Lean proof by induction on the object (sat of the hint inferred under the default O(n) strategy; accepted for every '
                            'draw via C01_sat_imp_chk; termination of the id-set guard on every finite heap); model tied to /repo by extracted '
